@@ -336,8 +336,24 @@ def _c10_generated(tier):
     return out
 
 
+def _c13_generated(tier):
+    """generated specifications with a generated HISTORY: part of the declarations, new parameter values, a new method
+    object come after a first transcription; the transcription that is finally used must be the one of the final
+    specification (same oracle as for an OCP written in one go)"""
+    from . import randspec
+    out = []
+    for i in range(NT if tier == "thorough" else NQ):
+        kw = randspec.make(i)
+        def fac(i=i):
+            kw = randspec.make(i)
+            ini, after = randspec.make_initial(i, kw) if not kw["algebraics"] else ([], 0)
+            return Spec(late=randspec.make_late(i, kw), initial=ini, initial_after=after, **kw)
+        out.append(("R%03d-%s-history" % (i, kw["method"]), fac))
+    return out
+
+
 NQ, NT = 80, 300
-FAMILIES = dict(C10=_c10_generated,
+FAMILIES = dict(C10=_c10_generated, C13=_c13_generated,
                 C01=_with_generated(c01, lambda kw: kw["method"] in ("MS", "SS"), NQ, NT),
                 C02=_with_generated(c02, lambda kw: kw["method"] == "DC", NQ, NT),
                 C04=_with_generated(c04, lambda kw: bool(kw["constraints"]), NQ, NT),
